@@ -30,7 +30,11 @@ func (e *Exec) fieldAddr(obj string, structT types.Type, i int) *Addr {
 	if isStructValType(f.Type()) {
 		// embedded struct value: a sub-object with its own identity
 		fn := "sub." + name
-		e.S.declareFun(fn, []string{"Int"}, "Int")
+		if !e.S.declared[fn] {
+			e.S.declareFun(fn, []string{"Int"}, "Int")
+			// the address of an embedded struct of an existing object is a non-nil reference
+			e.S.assume(fmt.Sprintf("(forall ((o Int)) (! (=> (> o 0) (> (%s o) 0)) :pattern ((%s o))))", sym(fn), sym(fn)))
+		}
 		sub := app(sym(fn), obj)
 		return &Addr{Sub: sub, Ty: fty}
 	}
